@@ -970,6 +970,13 @@ class Executor:
             for s1, b in self.decide(t[1], st, node):
                 yield s1, (not b)
             return
+        if t[0] == "call" and t[1] == ("builtin", "bool") and len(t[2]) == 1 and t[2][0][0] != "kw":
+            yield from self.decide(t[2][0], st, node)
+            return
+        if t[0] == "ifexp":
+            for s1, b in self.decide(t[1], st, node):
+                yield from self.decide(t[2] if b else t[3], s1, node)
+            return
         if t[0] == "boolop":
             # value-position boolop reaching a test (e.g. through a variable)
             is_and = t[1] == "and"
